@@ -373,6 +373,38 @@ def _block_grid(node):
     return [list(node.elts)]
 
 
+def _concat_grid(call, rank):
+    """np.concatenate((a, b), axis=k) on site tensors of the given rank -> the np.block grid with the same meaning
+    (k = last axis: one row; k = second-to-last axis: one column), else None"""
+    if not (isinstance(call, ast.Call) and norm(call.func) == 'np.concatenate' and len(call.args) == 1 and
+            isinstance(call.args[0], (ast.Tuple, ast.List)) and len(call.keywords) == 1 and call.keywords[0].arg == 'axis'):
+        return None
+    from ..typestate import literal_int
+    k = literal_int(call.keywords[0].value)
+    if k is None:
+        return None
+    if k < 0:
+        k += rank
+    if k == rank - 1:
+        return [list(call.args[0].elts)]
+    if k == rank - 2:
+        return [[e] for e in call.args[0].elts]
+    return None
+
+
+def _scaled(e, x_text):
+    """`alpha * X` or `X * alpha` (the product of a scalar and an array commutes exactly)"""
+    return isinstance(e, ast.BinOp) and isinstance(e.op, ast.Mult) and \
+        sorted([norm(e.left), norm(e.right)]) == sorted(['alpha', x_text])
+
+
+def _length_canon(text, names):
+    """every spelling of the common number of sites becomes `L`"""
+    for nm in names:
+        text = text.replace(f'len({nm}.A)', 'L').replace(f'{nm}.nsites', 'L')
+    return text
+
+
 def sum_rules(chk, repo, rid):
     """block layout of sums vs. order of the concatenated labels; alpha once per chain"""
     n = 0
@@ -387,26 +419,29 @@ def sum_rules(chk, repo, rid):
         w = where(repo, fi, fi.node)
         # labels: concatenate((x0.qD[i], x1.qD[i])) for the inner bonds 1..L-1
         cat = [s for s in ast.walk(fi.node) if isinstance(s, ast.Assign) and
-               isinstance(strip_copies(s.value), ast.Call) and norm(strip_copies(s.value).func) == 'np.concatenate']
+               isinstance(strip_copies(s.value), ast.Call) and norm(strip_copies(s.value).func) == 'np.concatenate' and
+               not norm(s.targets[0]).startswith(f'{res}.A[')]
+        Lnames = (x0, x1, res)
         okc = False
         if len(cat) == 1:
             b = pmatch(f'np.concatenate(({x0}.qD[__i], {x1}.qD[__i]))', strip_copies(cat[0].value)) or \
                 pmatch(f'np.concatenate([{x0}.qD[__i], {x1}.qD[__i]])', strip_copies(cat[0].value))
             lp = [l for l in ast.walk(fi.node) if isinstance(l, ast.For) and cat[0] in l.body]
-            okc = b is not None and lp and norm(lp[0].iter) == 'range(1, L)' and norm(lp[0].target) == b['__i'] and \
+            okc = b is not None and lp and _length_canon(norm(lp[0].iter), Lnames) == 'range(1, L)' and norm(lp[0].target) == b['__i'] and \
                 norm(cat[0].targets[0]) == f'{res}.qD[{b["__i"]}]'
         chk.ob(rid, w, f'{fi.name}: inner bond labels are (first operand, second operand) concatenated, for bonds 1..L-1', okc,
                norm(cat[0])[:80] if cat else 'not found', key=f'{rid}|{q}|labels')
         n += 1
         # np.block entries
         blocks = [s for s in ast.walk(fi.node) if isinstance(s, ast.Assign) and isinstance(s.value, ast.Call) and
-                  norm(s.value.func) == 'np.block']
+                  (norm(s.value.func) == 'np.block' or
+                   (norm(s.value.func) == 'np.concatenate' and norm(s.targets[0]).startswith(f'{res}.A[')))]
         seen = {}
         for s in blocks:
             tgt = norm(s.targets[0])
-            grid = _block_grid(s.value.args[0])
+            grid = _block_grid(s.value.args[0]) if norm(s.value.func) == 'np.block' else _concat_grid(s.value, rank)
             if grid is None:
-                raise AnalysisError(f'{q}: np.block argument not a list display')
+                raise AnalysisError(f'{q}: `{norm(s.value)[:60]}`: argument not a list display / axis not a literal bond axis')
             pos = 'first' if tgt == f'{res}.A[0]' else ('last' if tgt == f'{res}.A[-1]' else 'inner')
             seen[pos] = s
             # np.block: innermost lists are joined along the last axis (right bond), the outer along the
@@ -456,8 +491,8 @@ def sum_rules(chk, repo, rid):
                         ok = ok and good
                         detail.append(f'[{r}][{c_}] {txt[:40]}')
                     elif pos == 'first':
-                        want = [f'{x0}.A[0]', f'alpha * {x1}.A[0]'][c_] if len(grid) == 1 and len(row) == 2 else None
-                        ok = ok and txt == want
+                        shape_ok = len(grid) == 1 and len(row) == 2
+                        ok = ok and shape_ok and (txt == f'{x0}.A[0]' if c_ == 0 else _scaled(e, f'{x1}.A[0]'))
                         detail.append(txt[:40])
                     else:
                         want = [f'{x0}.A[-1]', f'{x1}.A[-1]'][r] if len(grid) == 2 and len(row) == 1 else None
@@ -476,31 +511,50 @@ def sum_rules(chk, repo, rid):
         # shapes s0, s1 are those of the operands at the same site; inner loop covers 1..L-2
         inner = seen.get('inner')
         if inner is not None:
-            lp = [l for l in ast.walk(fi.node) if isinstance(l, ast.For) and inner in l.body][0]
+            lps = [l for l in ast.walk(fi.node) if isinstance(l, ast.For) and inner in l.body]
+            if not lps:
+                # assembled under a further condition inside the loop (or outside any loop): the sites it covers are not
+                # those of a plain loop over 1..L-2
+                chk.ob(rid, where(repo, fi, inner), f'{fi.name}: inner tensors are assembled for sites 1..L-2', False,
+                       f'`{norm(inner)[:60]}` is not a statement of a loop over the inner sites', key=f'{rid}|{q}|block|shapes')
+                n += 1
+                continue
+            lp = lps[0]
             i = norm(lp.target)
-            ok = norm(lp.iter) == 'range(1, L - 1)' and norm(inner.targets[0]) == f'{res}.A[{i}]'
+            ok = _length_canon(norm(lp.iter), Lnames) == 'range(1, L - 1)' and norm(inner.targets[0]) == f'{res}.A[{i}]'
             defs = {}
             chk.ob(rid, where(repo, fi, lp), f'{fi.name}: inner tensors are assembled for sites 1..L-2', ok, f'range {norm(lp.iter)}', key=f'{rid}|{q}|block|shapes')
             n += 1
         # alpha exactly once per chain
         alpha_uses = [x for x in ast.walk(fi.node) if isinstance(x, ast.Name) and x.id == 'alpha' and isinstance(x.ctx, ast.Load)]
-        single = [s for s in ast.walk(fi.node) if isinstance(s, ast.If) and norm(s.test) == 'L == 1']
+        def single_test(t):
+            return _length_canon(norm(t), Lnames) in ('L == 1', '1 == L')
+        single = [s for s in ast.walk(fi.node) if isinstance(s, ast.If) and single_test(s.test)]
         ok = len(alpha_uses) == 2 and len(single) == 1
         if ok:
             one = [s for s in single[0].body if isinstance(s, ast.Assign) and norm(s.targets[0]) == f'{res}.A[0]']
-            ok = len(one) == 1 and norm(one[0].value) == f'{x0}.A[0] + alpha * {x1}.A[0]'
+            v_ = one[0].value if len(one) == 1 else None
+            # the sum of the two tensors, in either order (floating-point addition commutes exactly)
+            ok = isinstance(v_, ast.BinOp) and isinstance(v_.op, ast.Add) and \
+                ((norm(v_.left) == f'{x0}.A[0]' and _scaled(v_.right, f'{x1}.A[0]')) or
+                 (norm(v_.right) == f'{x0}.A[0]' and _scaled(v_.left, f'{x1}.A[0]')))
             in_single = [u for u in alpha_uses if any(u is y for s in single[0].body for y in ast.walk(s))]
-            in_multi = [u for u in alpha_uses if any(u is y for s in single[0].orelse for y in ast.walk(s))]
+            # the multi-site code is whatever is not the single-site arm (an `elif` / `else` arm, the code after a guard
+            # clause, or an enclosing arm when the case distinction is written the other way round)
+            in_multi = [u for u in alpha_uses if not any(u is y for y in in_single)]
             ok = ok and len(in_single) == 1 and len(in_multi) == 1
         chk.ob(rid, w, f'{fi.name}: the scale alpha multiplies the second operand on exactly one site of every chain, in the '
                f'single-site and the multi-site branch', ok, f'{len(alpha_uses)} uses of alpha', key=f'{rid}|{q}|alpha')
         n += 1
         # boundary labels: label k of the result is label k of the first operand (a copy), for k = 0 and k = L
-        single = [s_ for s_ in ast.walk(fi.node) if isinstance(s_, ast.If) and norm(s_.test) == 'L == 1']
+        single = [s_ for s_ in ast.walk(fi.node) if isinstance(s_, ast.If) and single_test(s_.test)]
+        in_single_arm = {id(y) for s_ in (single[0].body if single else []) for y in ast.walk(s_)}
         for branch, want in ((single[0].body if single else [], {'0': '0', '1': '1'}),
-                             (single[0].orelse if single else [], {'0': '0', '-1': '-1'})):
+                             (None, {'0': '0', '-1': '-1'})):
             stores = {}
-            for s_ in ast.walk(ast.Module(body=list(branch), type_ignores=[])):
+            cands = ast.walk(ast.Module(body=list(branch), type_ignores=[])) if branch is not None else \
+                [y for y in ast.walk(fi.node) if id(y) not in in_single_arm] if single else []
+            for s_ in cands:
                 if isinstance(s_, ast.Assign) and isinstance(s_.targets[0], ast.Subscript) and \
                         norm(s_.targets[0].value) == f'{res}.qD' and not isinstance(s_.value, ast.Call) or \
                         (isinstance(s_, ast.Assign) and isinstance(s_.targets[0], ast.Subscript) and
